@@ -147,7 +147,7 @@ pub fn gen(tier: &str, seed: u64) -> Gen {
         "-9223372036854775808", "0b1", "Inf", "NaN", "yes", "off", "set n", "incr m; incr m", "return $n", "{",
         "a {b c} d e", "1 ", "\n2", "$n", "[incr m]", "x;y",
     ];
-    let views: [(&str, &str); 14] = [
+    let views: [(&str, &str); 16] = [
         ("incr m $s", "incr m [ident $s]"),
         ("expr {$s + 1}", "expr {[ident $s] + 1}"),
         ("expr {$s ? \"t\" : \"f\"}", "expr {[ident $s] ? \"t\" : \"f\"}"),
@@ -162,13 +162,25 @@ pub fn gen(tier: &str, seed: u64) -> Gen {
         ("string cat $s $s", "string cat [ident $s] [ident $s]"),
         ("set n $s; expr {$n * 2}", "set n [ident $s]; expr {[ident $n] * 2}"),
         ("dict get $s k", "dict get [ident $s] k"),
+        ("expr $s", "expr [ident $s]"),
+        ("set n $s; llength $n", "set n [ident $s]; llength [ident $n]"),
     ];
     let nv = if thorough { 60_000 } else { 2500 };
     for _ in 0..nv {
-        let lit = pool[rng.below(pool.len())];
-        let q = Value::from(vec![Value::from(lit)]);
-        let mut p = format!("set s {}\n", q.as_str());
-        let mut s2 = p.clone();
+        // the value comes from a literal, or from a command that builds typed data with no string yet
+        let builders = [
+            "list k v k w", "list a 1 b 2 a 3", "list 1 2 3", "dict create a 1 b 2", "list {set m} {$n}", "list incr m",
+            "string cat { 3} { }", "list {} {}", "list a {b c} d e", "expr {0x10}", "expr {7 - 4}", "list -0 +1",
+        ];
+        let (mut p, mut s2) = if rng.chance(1, 3) {
+            let b = builders[rng.below(builders.len())];
+            (format!("set s [{}]\n", b), format!("set s [ident [{}]]\n", b))
+        } else {
+            let lit = pool[rng.below(pool.len())];
+            let q = Value::from(vec![Value::from(lit)]);
+            let t = format!("set s {}\n", q.as_str());
+            (t.clone(), t)
+        };
         let k = 2 + rng.below(4);
         for _ in 0..k {
             let (a, b) = views[rng.below(views.len())];
